@@ -327,12 +327,25 @@ theorem lock_hold_stable (h : Reach c n s) (u t : Tid) (hl : s.lock = some u) (h
     (hs : step c s t = some s') : s'.lock = some u ∧ s'.loc u = s.loc u :=
   holder_stable (reach_inv h).lk hl hne (step_trans hs)
 
-/-- `readers_wait_free` (1), own steps: a reader's program is straight-line: every own step uses up exactly one unit of
-`readerFuel` (11 at the call of `reader()`, 6 when `reader()` has returned, 0 when `_end_read` has returned): `reader()`
-completes in exactly 5 own steps and `_end_read` in exactly 4, no retry loop, whatever the writers do. -/
+/-- `readers_wait_free` (1), own steps: a reader's program is straight-line: every own step uses up at least one unit of
+`readerFuel` (11 at the call of `reader()`, 6 when `reader()` has returned, 0 when `_end_read` has returned; a lookup
+`reader(id=..)` / `reader(serial=..)` that finds nothing skips from the lookup to the release): `reader()` completes in at
+most 5 own steps and `_end_read` in 4, no retry loop, whatever the writers do. -/
 theorem reader_own_steps (h : Reach c n s) (r : Tid) (hrole : c.role r = .reader) (hs : step c s r = some s') :
-    readerFuel (s'.loc r).pc + 1 = readerFuel (s.loc r).pc :=
+    readerFuel (s'.loc r).pc + 1 ≤ readerFuel (s.loc r).pc :=
   reader_step_fuel hrole (reader_pcs h r hrole) (step_trans hs)
+
+/-- `reader(id=k)` hands out the published version with that id, never anything else: a reader holding a version holds
+one of the published versions, and if it asked for id `k` (and got one) the version has id `k`. -/
+theorem reader_by_id (h : Reach c n s) (r : Tid) (k : Nat) (v : Nat × Content) (hp : (s.loc r).pc = .rdPick)
+    (hk : c.pick r = .byId k) (hf : s.versions.find? (fun v => v.1 == k) = some v) :
+    ∃ s', step c s r = some s' ∧ (s'.loc r).rver = v ∧ v.1 = k ∧ v ∈ s.versions.take (s.committed.length + 1) := by
+  have hi := reach_inv h
+  have hs : step c s r = some (s.setLoc r { s.loc r with pc := .rdAdd, rver := v }) := by simp [step, hp, hk, hf]
+  have hi' := reach_inv (.step r h (lt_of_not_idle hi (by rw [hp]; decide)) hs)
+  refine ⟨_, hs, by simp, by simpa using List.find?_some hf, ?_⟩
+  have := hi'.ser.rver r (by simp)
+  simpa using this
 
 /-- `readers_wait_free` (2), what can delay a reader: an unfinished reader can take its next step unless another thread
 holds `_version_lock` at this instant (a hold that ends within 8 steps of that thread, `lock_hold_bounded`): no condition
@@ -440,6 +453,15 @@ example : ∃ s, run demoCfgFail init (demoScheduleFail ++ [0, 0, 0, 0, 0, 0,
       1, 1, 1, 1, 1, 1, 1, 1, 1, 1, 1, 1, 1, 1, 1, 1, 1]) = some s ∧
     s.admitted = [0, 1] ∧ s.committed = [1] ∧ s.nodes = [6] ∧ s.versions = [(1, []), (2, [6])] ∧
     (s.loc 0).pc = .done ∧ (s.loc 1).pc = .done := ⟨_, rfl, rfl, rfl, rfl, rfl, rfl, rfl⟩
+
+/-- a writer commits twice-removed history: reader 1 asks for version id 1 (found: the initial empty version), reader 2's
+lookup finds nothing (`KeyError`): it releases the lock and is finished without ever registering -/
+def demoCfgPick : Cfg :=
+  { role := fun t => if t = 0 then .writer true else .reader, body := fun t x => x ++ [t + 5],
+    pick := fun t => if t = 1 then .byId 1 else if t = 2 then .missing else .latest }
+example : ∃ s, run demoCfgPick init ([0,0,0,0,0,0,0,0,0,0,0,0,0,0,0,0,0,0] ++ [1,1,1,1,1,1] ++ [2,2,2,2]) = some s ∧
+    s.versions = [(1, []), (2, [5])] ∧ (s.loc 1).rver = (1, []) ∧ s.readers = [1] ∧ (s.loc 2).pc = .done ∧ s.lock = none :=
+  ⟨_, rfl, rfl, rfl, rfl, rfl, rfl⟩
 
 /-! ## Non-vacuity of the fairness hypotheses
 
